@@ -492,6 +492,8 @@ pub fn gen_dp_world(r: &mut Rng, o: &DpWorldOptions) -> DpWorld {
         ColDef::new("user_id", DataType::integer_interval(1, 1000)).refs("users", "id"),
         ColDef::new("amount", nullable(r, DataType::float_interval(amount_lo, amount_hi))),
         ColDef::new("qty", DataType::integer_interval(0, qty_hi)),
+        // an integer range whose largest magnitude is on the negative side
+        ColDef::new("adj", DataType::integer_interval(-20, 5)),
         ColDef::new("status", DataType::text_values(STATUS.iter().map(|s| s.to_string()).collect::<Vec<_>>())),
     ];
     let items_cols = vec![
